@@ -29,6 +29,8 @@ pub fn admission_table() -> Vec<(&'static str, Vec<Family>)> {
         ("mismatched-labels", vec![Ipa, Hyrax]),
         ("unknown-polynomial-open", vec![Marlin, Sonic, Ipa, Pst13, Hyrax, ULigero, MLigero, Brakedown, Kzg10, Mlpc]),
         ("unknown-polynomial-check", vec![Marlin, Sonic, Ipa, Pst13, Hyrax, ULigero, MLigero, Brakedown, Kzg10, Mlpc]),
+        ("unknown-polynomial-open-lc", vec![Marlin, Sonic, Ipa, Pst13, Hyrax, ULigero, MLigero, Brakedown, Kzg10, Mlpc]),
+        ("unknown-polynomial-check-lc", vec![Marlin, Sonic, Ipa, Pst13, Hyrax, ULigero, MLigero, Brakedown, Kzg10, Mlpc]),
         ("missing-evaluation", vec![Marlin, Sonic, Ipa, Pst13, Hyrax, ULigero, MLigero, Brakedown, Kzg10, Mlpc]),
         ("setup-zero", vec![Marlin, Sonic, Pst13, Kzg10]),
         ("trim-beyond-params", vec![Marlin, Sonic, Ipa, Pst13, Kzg10, Mlpc]),
@@ -218,6 +220,44 @@ pub fn run<S: Scheme>(scn: &Scenario, log: &EventLog) -> RunResult {
                 qs.insert(("nobody".to_string(), (scn.points[0].label.clone(), sess.points[0].clone())));
                 let o = step(|| PcOf::<S>::batch_open(&pr.ck, pr.polys.iter(), pr.comms.iter(), &qs, &mut sp, pr.states.iter(), Some(&mut rng)));
                 Some(("batch_open(query for a polynomial that was never supplied)".into(), o.is_ok(), o.describe()))
+            }
+            "unknown-polynomial-open-lc" | "unknown-polynomial-check-lc" => {
+                use ark_poly_commit::{LCTerm, LinearCombination};
+                // an equation over a supplied polynomial (unbounded if there is one) and one nobody supplied
+                let pi = (0..scn.polys.len()).find(|&i| scn.polys[i].degree_bound.is_none()).unwrap_or(0);
+                let known = scn.polys[pi].label.clone();
+                let z = sess.points[0].clone();
+                let mut qs: QuerySet<S::Pt> = QuerySet::new();
+                qs.insert(("eq".to_string(), (scn.points[0].label.clone(), z.clone())));
+                let honest_lc = LinearCombination::<S::F>::new("eq", vec![(S::F::from(1u64), LCTerm::from(known.clone()))]);
+                let ghost_lc = if f.target % 2 == 0 {
+                    LinearCombination::<S::F>::new("eq", vec![(S::F::from(1u64), LCTerm::from(known.clone())), (S::F::from(1u64), LCTerm::from("nobody".to_string()))])
+                } else {
+                    LinearCombination::<S::F>::new("eq", vec![(S::F::from(1u64), LCTerm::from("nobody".to_string())), (S::F::from(1u64), LCTerm::from(known.clone()))])
+                };
+                let pr = &sess.prover;
+                let v = &sess.verifier;
+                if f.kind == "unknown-polynomial-open-lc" {
+                    let mut sp = v.sponge.fork();
+                    let o = step(|| PcOf::<S>::open_combinations(&pr.ck, [&ghost_lc], pr.polys.iter(), pr.comms.iter(), &qs, &mut sp, pr.states.iter(), Some(&mut rng)));
+                    Some(("open_combinations(equation naming a polynomial that was never supplied)".into(), o.is_ok(), o.describe()))
+                } else {
+                    let mut sp = v.sponge.fork();
+                    match step(|| PcOf::<S>::open_combinations(&pr.ck, [&honest_lc], pr.polys.iter(), pr.comms.iter(), &qs, &mut sp, pr.states.iter(), Some(&mut rng))) {
+                        Outcome::Ok(proof) => {
+                            let mut evals: Evaluations<S::Pt, S::F> = Evaluations::new();
+                            evals.insert(("eq".to_string(), z.clone()), pr.polys[pi].polynomial().eval_ref(&z));
+                            let mut sp = v.sponge.fork();
+                            let (d0, _) = decide(|| PcOf::<S>::check_combinations(&v.vk, [&honest_lc], &v.comms, &qs, &evals, &proof, &mut sp, &mut rng));
+                            if !d0.accepted() { res.stats.probe("vacuous:honest-lc-not-accepted"); None } else {
+                                let mut sp = v.sponge.fork();
+                                let (d, why) = decide(|| PcOf::<S>::check_combinations(&v.vk, [&ghost_lc], &v.comms, &qs, &evals, &proof, &mut sp, &mut rng));
+                                Some(("check_combinations(equation naming a commitment that was never supplied)".into(), d.accepted(), format!("{} {}", d.name(), trunc(&why, 60))))
+                            }
+                        }
+                        o => { res.stats.probe(&format!("vacuous:honest-lc-{}", o.kind())); None }
+                    }
+                }
             }
             "unknown-polynomial-check" | "missing-evaluation" => {
                 match &honest {
